@@ -24,6 +24,8 @@ FS = ["id", "inc", "dbl"]
 
 
 class Gen:
+    mixed_api = 0.0   # probability that a request / stream of a command script uses the capability API
+
     def __init__(self, rng, ids, max_depth=3, family="mixed", script_budget=8):
         self.r = rng
         self.ids = ids
@@ -97,7 +99,10 @@ class Gen:
             opts.append("next")
         k = r.choice(opts)
         if k == "req":
-            return {"k": "req", "tag": self.tag(), "src": self.src()}
+            lf = {"k": "req", "tag": self.tag(), "src": self.src()}
+            if r.random() < self.mixed_api:
+                lf["l"] = True
+            return lf
         if k == "joinh":
             return {"k": "joinh", "h": r.choice(handles)}
         return {"k": "next", "s": r.choice(streams)}
@@ -122,6 +127,8 @@ class Gen:
             elif k == "req":
                 dst = r.randint(1, 4)
                 code.append({"op": "req", "tag": self.tag(), "src": self.src(), "dst": dst})
+                if r.random() < self.mixed_api:
+                    code[-1]["l"] = True
                 if r.random() < 0.4:
                     code.append({"op": "map", "f": r.choice(FS), "reg": dst})
                 if r.random() < 0.6:
@@ -132,6 +139,8 @@ class Gen:
                     s = free[0]
                     streams.append(s)
                     code.append({"op": "open", "tag": self.tag(), "src": self.src(), "s": s})
+                    if r.random() < 2 * self.mixed_api:
+                        code[-1]["l"] = True
             elif k == "loop":
                 free = [s for s in (1, 2) if s not in streams]
                 if not free:
@@ -140,6 +149,8 @@ class Gen:
                 streams.append(s)
                 dst = r.randint(1, 4)
                 code.append({"op": "open", "tag": self.tag(), "src": self.src(), "s": s})
+                if r.random() < 2 * self.mixed_api:
+                    code[-1]["l"] = True
                 head = len(code) + 1
                 body = []
                 if r.random() < 0.4:
@@ -226,6 +237,9 @@ def make_case(rng, host, depth, family, nsteps, name, budget=8, p_bad=0.0):
         family, host = "legacy", "core"
     g = Gen(rng, ids, max_depth=depth, family=family, script_budget=budget)
     direct = host in ("direct", "stream")
+    if not direct and not legacy and family in ("mixed", "script"):
+        # capability-API futures inside Command tasks (only a Core has a capability context)
+        g.mixed_api = rng.choice([0.0, 0.15, 0.3])
     progs = [g.cmd(0)]
     follow = {}
     if not direct:
